@@ -542,12 +542,17 @@ def vel_instance(rng):
             return lat, p, ref, est, rv, ev, vt
         ok = True
         for q in (p, dict(p, offset_ratio=None)):     # evaluate() also scores without offsets
+            # the margin rule looks at the pairs the code under test returns; whatever a CHANGED match_notes hands back
+            # (an exception, indices outside the arrays, not pairs at all) must not break case generation: the rule is
+            # then simply not applied and the case itself shows the disagreement with the model
             try:
                 pairs = pairs_of(T.match_notes(ivals(ref), pitches(ref), ivals(est), pitches(est), **fkw(q, K_NOTES)))
+                if not all(0 <= i < len(rv) and 0 <= j < len(ev) for i, j in pairs):
+                    pairs = []
+                diffs = vel_diffs(ref, est, rv, ev, pairs)
             except Exception:  # noqa: BLE001
-                pairs = []
-            ok = ok and all(abs(d - vt) > Fr(1, 10 ** 6) or (d == 0 and vt == 0)
-                            for d in vel_diffs(ref, est, rv, ev, pairs))
+                diffs = []
+            ok = ok and all(abs(d - vt) > Fr(1, 10 ** 6) or (d == 0 and vt == 0) for d in diffs)
         if ok:
             return lat, p, ref, est, rv, ev, vt
 
